@@ -11,6 +11,7 @@ import traceback
 
 from . import core
 from .core import AnalysisBroken, Report
+from .explain import full_explanation
 
 VERIF = core.VERIF
 
@@ -152,7 +153,7 @@ def main(argv=None):
             "seed": seed,
             "level": "other",
             "coverage": {
-                "explanation": getattr(mod, "EXPLANATION", "") + (" ANALYSIS BROKEN: " + broken if broken else ""),
+                "explanation": full_explanation(prop, getattr(mod, "EXPLANATION", "")) + (" ANALYSIS BROKEN: " + broken if broken else ""),
                 "evaluations": max(rep.obligations, 0),
                 "distinct_nontrivial": len(set((s["rule"], s["function"], s["established"]) for s in rep.samples))
                 if rep.obligations else 0,
